@@ -71,6 +71,12 @@ func RunAll(run *hlib.Run, prop string, sigPrefixes []string, n int) {
 		if total > 0 {
 			run.Nontrivial(fmt.Sprintf("%v|%v|%d|%d|%d|%d", sc.Version, ks, len(sc.SlowAt), sc.Icepts, sc.MaxRecs, total))
 		}
+		if !res.CloseHang {
+			run.Emit("creset", "ok")
+			for _, l := range res.Trace {
+				run.Emit(l, "ok")
+			}
+		}
 		for _, f := range Check(res) {
 			mine := false
 			for _, p := range sigPrefixes {
